@@ -300,16 +300,17 @@ def main(tier, replay):
     for enc in MAIN:
         if thorough:
             pal = palette(enc) if enc != 'utf-32' else [0x61, 0x1F600, 0x301]
-            jobs.append((enc, consts(enc, Palette=set(pal), MaxStrings=3, MaxLen=2, MaxChunk=6,
-                                     IncModes={True, False} if enc == 'utf-16' else {True})))
-            if enc == 'utf-32':
-                jobs.append((enc, consts(enc, Palette=set(palette(enc)), MaxStrings=2, MaxLen=2,
-                                         MaxChunk=9, IncModes={True, False})))
-        else:
+            jobs.append((enc, consts(enc, Palette=set(pal), MaxStrings=3, MaxLen=2, MaxChunk=6)))
             jobs.append((enc, consts(enc, Palette=set(palette(enc)), MaxStrings=2, MaxLen=2,
-                                     MaxChunk=6, IncModes={True, False})))
-            jobs.append((enc, consts(enc, Palette=set(palette(enc)), MaxStrings=3, MaxLen=1,
-                                     MaxChunk=9)))
+                                     MaxChunk=9, IncModes={True, False})))
+        elif enc == 'latin-1':
+            jobs.append((enc, consts(enc, Palette=set(palette(enc)), MaxStrings=3, MaxLen=2,
+                                     MaxChunk=3, IncModes={True, False})))
+        else:
+            pal = palette(enc) if enc != 'utf-32' else [0x61, 0x1F600, 0x301]
+            jobs.append((enc, consts(enc, Palette=set(pal), MaxStrings=2, MaxLen=2, MaxChunk=6,
+                                     IncModes={True} if enc == 'utf-8' else {True, False})))
+            jobs.append((enc, consts(enc, Palette=set(pal), MaxStrings=3, MaxLen=1, MaxChunk=9)))
     # model-level mutants: the independent mode must be distinguishable in the model
     mm = [('utf-16', 'OneBOMAlways'), ('utf-16', 'RoundTripAlways'), ('utf-32', 'ConfluenceAlways')]
     nw = 4
@@ -426,6 +427,7 @@ def main(tier, replay):
     n_traces = 0
     n_trunc = 0
     n_independent = 0
+    n_independent_diff = 0
     encs = sorted(traces)
     results = C.par([lambda e=e: validate(e, [t[0] for t in traces[e]]) for e in encs],
                     max_workers=4)
@@ -438,8 +440,7 @@ def main(tier, replay):
                 if not tr['inc']:
                     n_independent += 1
                     if v[2] is not True:
-                        V.note('encode(incremental=False) trace differs from the model of the '
-                               'independent mode (outside C17): %s %r' % (enc, tr['strings']))
+                        n_independent_diff += 1
                     continue
                 if v[2] is not True:
                     out_of_sync += 1
@@ -459,6 +460,9 @@ def main(tier, replay):
         V.note('impl_model_in_sync=false: %d accepted traces released characters in a different '
                'chunk than the model, or wrote nothing for an empty text (allowed by C17)'
                % out_of_sync)
+    if n_independent_diff:
+        V.note('%d of %d executions with encode(incremental=False) differ from the model of the '
+               'independent mode (outside C17, never a verdict)' % (n_independent_diff, n_independent))
     samples = []
     for enc in MAIN:
         cand = [t[0] for t in traces[enc] if nontrivial_cut(t[0]) and t[0]['wirelen'] <= 24]
